@@ -214,20 +214,22 @@ type tierCfg struct {
 	corpusEvery                            int // unmutated: every k-th corpus item (1 = all)
 	nMut, nCore, nRich, nCyc, nBuiltin     int
 	deepSizes                              []int
-	deepShapesAll                          bool
 	batch                                  int
 	perInputTimeout                        int // seconds
 }
 
 var tiers = map[string]tierCfg{
-	"quick": {maxCorpus: 16 << 10, corpusEvery: 6, nMut: 1500, nCore: 300, nRich: 900, nCyc: 200, nBuiltin: 250,
-		deepSizes: []int{1000, 9999, 10001}, batch: 48, perInputTimeout: 30},
-	"thorough": {maxCorpus: 64 << 10, corpusEvery: 1, nMut: 40000, nCore: 4000, nRich: 16000, nCyc: 3000, nBuiltin: 4000,
-		deepSizes: []int{1000, 5000, 9999, 10001, 20000}, deepShapesAll: true, batch: 64, perInputTimeout: 60},
+	"quick": {maxCorpus: 16 << 10, corpusEvery: 6, nMut: 1300, nCore: 300, nRich: 900, nCyc: 200, nBuiltin: 250,
+		batch: 64, perInputTimeout: 30},
+	"thorough": {maxCorpus: 64 << 10, corpusEvery: 1, nMut: 30000, nCore: 4000, nRich: 12000, nCyc: 3000, nBuiltin: 4000,
+		deepSizes: []int{1000, 5000, 9999, 10001, 20000}, batch: 64, perInputTimeout: 60},
 }
 
-// quick tier uses only the main deep shapes at all sizes
-var quickDeepShapes = []string{"paren", "struct", "list", "unary", "binchain", "selchain", "interp", "openparen", "field-chain"}
+// The quick tier runs the combinations that cost well under 6 s of CPU per run
+// on the pinned tree (measured table in design/C02-explore-notes.md).
+var quickDeep = []string{"paren-1000", "paren-9999", "paren-10001", "unary-1000", "unary-9999", "unary-10001",
+	"list-1000", "list-10001", "struct-1000", "struct-10001", "binchain-1000", "binchain-9999", "selchain-1000",
+	"interp-1000", "interp-10001", "openparen-9999", "not-9999", "cmt-9999", "structcompr-1000"}
 
 func buildInputs(repo, tier string, seed uint64, bigMode string) ([]Input, map[string]any) {
 	cfg := tiers[tier]
@@ -276,18 +278,28 @@ func buildInputs(repo, tier string, seed uint64, bigMode string) ([]Input, map[s
 		{"gen-list", richFeat{refs: true, lists: true, compr: true}},
 		{"gen-compr", richFeat{refs: true, lists: true, compr: true, dyn: true}},
 		{"gen-let", richFeat{refs: true, lets: true}},
-		{"gen-disj", richFeat{refs: true, disj: true}},
-		{"gen-mix", richFeat{refs: true, lists: true, compr: true, lets: true, disj: true, dyn: true}},
+		{"gen-disj", richFeat{refs: true, disj: true, defs: true}},
+		{"gen-mix", richFeat{refs: true, lists: true, compr: true, lets: true, disj: true, dyn: true, defs: true}},
+	}
+	chaosOf := func(r *common.Rng) int {
+		// 2/3 of the programs are fully typed, the rest get 1/25 .. 1/6 arbitrary sub-expressions
+		switch r.Intn(6) {
+		case 0:
+			return 25
+		case 1:
+			return 6
+		}
+		return 0
 	}
 	for i := 0; i < cfg.nRich; i++ {
 		fs := featSets[i%len(featSets)]
-		g := &rich{r: rr.Fork(), feat: fs.f, budget: 40 + rr.Intn(120)}
-		add(fs.kind, []byte(g.file(2+rr.Intn(3), 2+rr.Intn(6))), "")
+		g := &rich{r: rr.Fork(), feat: fs.f, budget: 30 + rr.Intn(100), chaos: chaosOf(rr)}
+		add(fs.kind, []byte(g.file(2+rr.Intn(3), 2+rr.Intn(5))), "")
 	}
 	rb := root.Fork()
 	for i := 0; i < cfg.nBuiltin; i++ {
-		g := &rich{r: rb.Fork(), feat: richFeat{refs: true, lists: true, builtins: true, disj: i%3 == 0, compr: i%4 == 0}, budget: 30 + rb.Intn(60)}
-		add("gen-builtin", []byte(g.file(2+rb.Intn(2), 2+rb.Intn(5))), "")
+		g := &rich{r: rb.Fork(), feat: richFeat{refs: true, lists: true, builtins: true, disj: i%3 == 0, compr: i%4 == 0}, budget: 25 + rb.Intn(60), chaos: chaosOf(rb)}
+		add("gen-builtin", []byte(g.file(2+rb.Intn(2), 2+rb.Intn(4))), "")
 	}
 	ry := root.Fork()
 	for i, s := range refCycles {
@@ -304,22 +316,28 @@ func buildInputs(repo, tier string, seed uint64, bigMode string) ([]Input, map[s
 		}
 	}
 	// deep nesting: seed independent
-	shapes := quickDeepShapes
-	if cfg.deepShapesAll {
-		shapes = deepShapes
-	}
-	for _, sh := range shapes {
-		for _, n := range cfg.deepSizes {
-			if excl, ok := deepExcluded[fmt.Sprintf("%s-%d", sh, n)]; ok && bigMode != "all" {
-				_ = excl
-				continue
+	if tier == "quick" {
+		for _, sn := range quickDeep {
+			k := strings.LastIndexByte(sn, '-')
+			add("deep-"+sn[:k], []byte(deepInput(sn[:k], common.Atoi(sn[k+1:], 0))), sn[k+1:])
+		}
+	} else {
+		for _, sh := range deepShapes {
+			for _, n := range cfg.deepSizes {
+				if _, ok := deepExcluded[fmt.Sprintf("%s-%d", sh, n)]; ok && bigMode != "all" {
+					continue
+				}
+				add("deep-"+sh, []byte(deepInput(sh, n)), fmt.Sprint(n))
 			}
-			add("deep-"+sh, []byte(deepInput(sh, n)), fmt.Sprint(n))
 		}
 	}
-	// a few seed-dependent depths around the parser limit
+	if tier != "quick" {
+		// witness of known finding F-C02-2 (about 25 s of CPU until the worker dies)
+		add("deep-field-chain", []byte(deepInput("field-chain", 400000)), "400000")
+	}
+	// a few seed-dependent depths (thorough: around the parser limit)
 	rd := root.Fork()
-	for i := 0; i < 6; i++ {
+	for i := 0; i < 4; i++ {
 		sh := common.Pick(rd, []string{"paren", "list", "unary", "binchain"})
 		n := 9990 + rd.Intn(20)
 		if tier == "quick" {
@@ -331,7 +349,7 @@ func buildInputs(repo, tier string, seed uint64, bigMode string) ([]Input, map[s
 		if _, ok := bigExcluded[bi[0]]; ok && bigMode != "all" {
 			continue
 		}
-		if bigMode == "none" {
+		if bigMode == "none" || (tier == "quick" && !quickBig[bi[0]] && bigMode != "all") {
 			continue
 		}
 		add("big", []byte(bi[1]), bi[0])
@@ -359,7 +377,31 @@ func buildInputs(repo, tier string, seed uint64, bigMode string) ([]Input, map[s
 	return out, dist
 }
 
-// deepExcluded: "<shape>-<n>" combinations kept out of the default stream
-// because the pinned tree exceeds the cap/timeout on them (observations in the
-// notes).  Filled in after triage.
-var deepExcluded = map[string]string{}
+// deepExcluded: "<shape>-<n>" combinations kept out of the default stream because
+// one pipeline run on the pinned tree needs more CPU than the per-input budget
+// (measured single-run CPU time in parentheses; "-" = killed at 150 s).  None of
+// them crashes: the cost is polynomial blow-up in the named step (observations
+// D-1..D-6 in design/C02-explore-notes.md).  `--big all` runs them anyway.
+var deepExcluded = map[string]string{
+	"struct-5000": "yaml.Encode cubic in nesting depth (-)", "struct-9999": "yaml.Encode cubic (-)",
+	"structnl-5000": "yaml.Encode cubic (-)", "structnl-9999": "yaml.Encode cubic (-)",
+	"field-chain-5000": "yaml.Encode cubic (-)", "field-chain-9999": "yaml.Encode cubic (-)",
+	"field-chain-10001": "yaml.Encode cubic; not limited by the parser (-)", "field-chain-20000": "yaml.Encode cubic (-)",
+	"disjnest-5000": "evaluation of nested disjunctions super-quadratic (90 s)", "disjnest-9999": "same (-)",
+	"let-5000": "compile of a chain of let clauses super-quadratic (-)", "let-9999": "same (-)", "let-10001": "same (-)", "let-20000": "same (-)",
+	"listcompr-5000": "evaluation of nested list comprehensions super-quadratic (-)",
+	"structcompr-5000": "evaluation of nested if-comprehensions super-quadratic (111 s)", "structcompr-9999": "same (-)",
+	"structcompr-10001": "same; not limited by the parser (-)", "structcompr-20000": "same (-)",
+	"ellipsis-9999": "Syntax(All)+format quadratic, 100 MB of output (77 s)",
+	"openlist-9999":  "Syntax+format quadratic on the partial AST (73 s)",
+	"idxchain-10001": "Syntax(All)+format quadratic (35 s)", "idxchain-20000": "same (-)",
+}
+
+// quickBig: the members of bigInputs() cheap enough (< 1.5 s CPU per run) for the quick tier.
+var quickBig = map[string]bool{"digits-float-100k": true, "ident-100k": true, "exp-pos": true, "exp-neg": true, "exp-int": true,
+	"exp-mul": true, "exp-add": true, "exp-small-int": true, "exp-cmp": true, "exp-div": true, "exp-suffix": true, "mul-100": true,
+	"strmul-1m": true, "strmul-1g": true, "listmul-1m": true, "repeat-1m": true, "repeat-1g": true, "repeat-4g": true, "repeat-neg": true,
+	"lrepeat-10m": true, "lrepeat-1g": true, "lrange-zero-step": true, "pow-big": true, "pow-tower": true, "exp-big": true,
+	"log-big": true, "sqrt-big": true, "maxrunes": true, "regex-nest": true, "regex-long": true, "regex-deep": true, "regex-op": true,
+	"json-deep-1k": true, "json-deep-20k": true, "json-deep-100k": true, "json-deepobj-20k": true, "json-valid-deep": true,
+	"yaml-deep-1k": true, "yaml-laughs": true, "yaml-laughs-small": true, "yaml-selfalias": true, "recurse-fn": true}
